@@ -10,9 +10,11 @@ SQUARES = [f + r for r in "12345678" for f in FILES]
 UNIVERSE = [a + b + p for a in SQUARES for b in SQUARES for p in ("", "q", "r", "b", "n")]
 
 
-def sweep(binary, fen, pre):
-    """All 20480 strings after `position fen F moves pre...`; returns the pm event."""
-    head = ("position startpos" if fen == "startpos" else "position fen " + fen) + " moves " + " ".join(pre)
+def sweep(binary, fen, pre, fields=6):
+    """All 20480 strings after `position fen F moves pre...`; returns the pm event.
+    fields = 4 / 5 / 6: how many fields of the FEN are sent (all three forms are well-formed)."""
+    sent = fen if fen == "startpos" else " ".join(fen.split(" ")[:fields])
+    head = ("position startpos" if fen == "startpos" else "position fen " + sent) + " moves " + " ".join(pre)
     script = []
     for s in UNIVERSE:
         script.append("%s %s\nshow\nisready\n" % (head.strip(), s))
